@@ -47,7 +47,7 @@ CLAIMED.update({
               "state snapshots) together with from-scratch evaluations of D = d_attach + beta * d_regul at the old and proposed "
               "values; in half of the runs the uniform draws are chosen 0.2 % below / above the reference alpha (the abstract "
               "levels of the specification made concrete; u = 0 where alpha underflows); scenarios with prohibitive and NaN proposals "
-              "for population blocks and for one individual. SamplerTrace.tla decides every step."),
+              "for population blocks, for one individual and for every individual at once (a perfectly fitted cohort with noise 1e-4). SamplerTrace.tla decides every step."),
         note=("Ties |u - alpha| <= 1e-5 alpha accept either outcome (counted). The mixture model's target is transcribed as "
               "built. Generator quality is assumed. Trusted: TLC, the recorder, float64 evaluation of exp(-D)."),
         technique="TLA+ spec + TLC exhaustive; code->spec trace validation; directed draws at spec levels",
@@ -63,7 +63,8 @@ CLAIMED.update({
               "checking that the records cover the space; real fits incl. the mixture model and a run without memory-less phase "
               "(entries missing inside visits, a starved mixture cluster) are validated against SaemTrace.tla: BatchUpdate, burn-in flag, "
               "statistics identity and, at every iteration, the closed forms evaluated by the recorder on the statistics in force and "
-              "the data mask (noise = RMS residual over observed entries, probabilities = mean responsibilities summing to one)."),
+              "the data mask (noise = RMS residual over observed entries, probabilities = mean responsibilities summing to one); a variance that "
+              "collapses outside burn-in must be refused with an untouched state (RefusedWhole)."),
         note=("Exact on the enumerated integer cases (float32 squares compared within 2e-5 relative); composition argument: every "
               "iteration calls exactly these rule functions with the statistics in force and the pre-step state (trace-validated). "
               "Mixture responsibilities are bound only through fit traces."),
@@ -102,10 +103,12 @@ CLAIMED.update({
               "of 2-3 individuals (identifiers whose string order differs from numeric order, data variants incl. one with a "
               "non-finite attachment) and every scenario (modify another individual, every permutation, every single individual, "
               "2-3 workers); TLC-enumerated scenarios are executed on a real fitted model (per-individual terms at fixed latent "
-              "values, totals, a seeded mean_posterior / mode_posterior chain, scipy_minimize with n_jobs 1-3 on uneven, non-monotone workloads) and TLC checks the recorded "
+              "values, totals, a seeded mean_posterior / mode_posterior chain, scipy_minimize with n_jobs 1-3 on uneven, non-monotone workloads, also on the threading backend with the first "
+              "submitted individual finishing last; the modify scenarios also on a precisely observed cohort - noise 0.01, 40 visits - "
+              "and on the joint model with an individual whose event precedes the population time-shift) and TLC checks the recorded "
               "relations (CohortTrace.tla): untouched individuals bit-identical when another is modified, per-identifier equality "
               "under permutation / alone / other worker counts, totals = sums, outputs keyed by input identifiers in input order; "
-              "plus per-individual decision locality of the individual sampler (SamplerTrace.tla)."),
+              "plus per-individual decision locality of the individual sampler, mixture model included (SamplerTrace.tla)."),
         note=("Optimisation results under permutation / alone / other worker counts are compared with tolerance (tau 0.1, others "
               "0.05): starting points are position-indexed draws, and worker processes differ in the last float bits (measured "
               "1e-3). Scenario space sampled with stratification."),
@@ -148,7 +151,9 @@ CLAIMED.update({
               "proposal on the velocities), the real re-centring is applied and TLC checks the verdicts (TrajectoryTrace.tla): "
               "trajectories, attachments and event likelihoods unchanged, zero-mean log-accelerations, every mixing-matrix row "
               "orthogonal to the progression direction in the metric - both evaluated from the terms of Trajectory.tla part D, also "
-              "for velocities near the single-precision floor, features far apart at the reference time and the shared-speed model."),
+              "for velocities near the single-precision floor, features far apart at the reference time, the shared-speed model and joint "
+              "models with two kinds of events; specs/OrthoBasis.tla enumerates dimension 2-5 x metric kind (scalar / vector / matrix) x "
+              "stripped column and the real compute_orthonormal_basis is checked on each (shape, Euclidean orthonormality, metric orthogonality)."),
         note=("Level 'other': invariance and orthogonality are numeric facts judged with tolerances 1e-5 (1 + |value|), 1e-6, 1e-5 "
               "||row|| ||G v0||; TLC decides the gauge algebra exactly and enumerates the patterns."),
         technique="TLA+ gauge algebra checked exactly by TLC; spec-enumerated patterns run on real states; code->spec conformance",
@@ -167,14 +172,15 @@ CLAIMED.update({
     "C13": dict(
         engine="ModelLifecycle", category="model_checking",
         text=("TLC checks ResultDependsOnlyOn, ModelUntouched, NothingLeftBehind, CallerInputsUntouched, PopAtMode and "
-              "SeededRepeatable of specs/ModelLifecycle.tla on every history of up to 5 (6) API calls (fit, estimate, three "
-              "personalization algorithms, simulate, save, load, RNG consumption; 2 data sets, 2 seeds); TLC-simulated "
+              "SeededRepeatable of specs/ModelLifecycle.tla on every history of up to 5 (6) API calls (fit, estimate - also as a table "
+              "from a caller-owned mapping of ages -, three personalization algorithms - also with custom optimiser parameters -, "
+              "simulate - also from a caller-owned table of visits with integer identifiers -, save, load, RNG consumption; 2 data sets, 2 seeds); TLC-simulated "
               "histories are replayed on real model objects: after every call the projected model state must be the "
               "specification's (training data / latent values present, population variables at prior modes, parameter and "
               "population hashes unchanged by queries, caller-owned table / Dataset object / settings objects (kept and re-used "
               "across calls, annealing switched on) / dict unchanged, no other State holding call data reachable from the model) "
               "and results carrying the same term <<call, params, inputs, seed>> must be bit-identical across different histories; "
-              "six directed histories (MC_ModelLifecycle.tla Script1-6: a query between two fits or not, before a save / load or "
+              "ten directed histories (MC_ModelLifecycle.tla Script1-10: a query between two fits or not, before a save / load or "
               "not, failing calls in between) are generated by TLC and replayed in the same pool; a call that fails on its inputs "
               "(FailedCall) must raise and leave the model exactly as it was; settings objects: Settings.tla replayed on real "
               "AlgorithmSettings (isolation, read-only operations, save / load round trip, stable defaults)."),
